@@ -241,6 +241,50 @@ def f_prodcons(consumer="amend_first", producer_by="plan", declared=0, tree=0):
     return files
 
 
+def f_prodcons4():
+    """Four overlapping steps: C reads o.txt and amends it late, P produces it, X is a declared
+    consumer (so it starts after P stopped), Z is unrelated and stops in between. The stop time of
+    P must survive until C's amend is judged (Scheduler.record_run_stopped pruning)."""
+    files = {
+        "src.txt": "src\n",
+        "p.py": script([["write_partial", "o.txt"], ["write", "o.txt", ["src.txt"]]]),
+        "c.py": script([["tryread", "o.txt"], ["amend", {"inp": ["o.txt"]}], ["read", "o.txt"],
+                        ["write", "c.out", ["o.txt"]]]),
+        "z.py": script([["write", "z.out", []]]),
+    }
+    files["plan.py"] = script([
+        ["static", "src.txt", "p.py", "c.py", "z.py"],
+        ["run", "./c.py", {"out": ["c.out"]}],
+        ["run", "./p.py", {"inp": ["src.txt"], "out": ["o.txt"]}],
+        ["run", "./z.py", {"out": ["z.out"]}],
+        tr("X", ["o.txt"], ["x.txt"]),
+    ])
+    return files
+
+
+def f_deferplan(slow_len=6, selfprod=0):
+    """A planning script defines a slow step, then amends an input that is not built yet: it is
+    deferred and runs again (reset_for_rerun detaches the slow step, define_step re-attaches it)
+    while the slow step may still be running. The awaited input is produced by a step of another
+    planning script (selfprod=1: by a step of the same script, the shape of the known
+    deferred-creator findings)."""
+    slow = [["write_partial", "slow.txt"]] + [["nop"]] * (slow_len - 2) + [["write", "slow.txt", []]]
+    gen = tr("G", ["src.txt"], ["g.txt"])
+    p2 = [["run", "./slow.py", {"out": ["slow.txt"]}]]
+    if selfprod:
+        p2.append(gen)
+    p2 += [["amend", {"inp": ["g.txt"]}], ["read", "g.txt"], ["write", "p2.out", ["g.txt"]]]
+    files = {
+        "src.txt": "src\n",
+        "slow.py": script(slow),
+        "p2.py": script(p2),
+        "plan.py": script([["static", "src.txt", "slow.py", "p1.py", "p2.py"],
+                           ["plan", "./p2.py", {"out": ["p2.out"]}], ["plan", "./p1.py"]]),
+        "p1.py": script([] if selfprod else [gen]),
+    }
+    return files
+
+
 def f_treeamend():
     """C amends a file under a static tree (UNCONFIRMED path, promoted hash jobs)."""
     return {
